@@ -20,7 +20,7 @@ RULE = ('every tree shape with <= E entries (files / empty dirs, up to isomorphi
         'expected row set is neither empty nor the whole tree, or when the ordering law has >= 2 levels to order')
 MC_NOTE = ('state = one closed configuration (tree, roots, window, mode, readdir order); transitions = '
            'directory-entry events compared with the walk model; every model trace is compared with the real binary')
-ASSUMPTIONS = ['ext4/tmpfs scratch directory; names are valid UTF-8',
+ASSUMPTIONS = ['ext4/tmpfs scratch directory; names that are not valid UTF-8 are compared as multisets of their lossy text',
                'a search root that is itself a symlink is not generated (statement does not define it)']
 BUDGET = {'quick': 50, 'thorough': 1500}
 
@@ -100,11 +100,14 @@ def cases_for(tree, tier, special=False):
     if special:
         full_roots, part_roots = ['dot'], ['abs', 'rel']
     for r in full_roots:
-        for (a, b) in windows(depth, not special):
+        for (a, b) in windows(depth, not special or tier == 'thorough'):
             for m in modes:
                 out.append({'roots': [[r, a, b, m]]})
     for r in part_roots:
-        for (a, b) in windows(depth, tier == 'thorough' and not special):
+        ws = windows(depth, tier == 'thorough' and not special)
+        if tier == 'quick':
+            ws = ws[:4] if special else ws[:7]
+        for (a, b) in ws:
             for m in (modes if tier == 'thorough' else [None, 'dfs']):
                 out.append({'roots': [[r, a, b, m]]})
     if len(topdirs) >= 2 and not special:
@@ -124,6 +127,18 @@ def cases_for(tree, tier, special=False):
 
 def groups(tier, seed):
     shapes = core.tree_shapes(EMAX[tier])
+    # names that are not valid UTF-8 (distinct names may print identically; rows are compared as multisets of lossy text)
+    nu = {'d\udcff': D({'one': F(1), 'sub': D({'deep': F(1)})}), 'd\udcfe': D({'two': F(1)}), 'plain': D({'three': F(1)}),
+          'f\udcff': F(1), 'f\udcfe': F(1), '\udcff\udcfe': D({'\udc80': F(1)})}
+    yield {'tree': nu, 'layer': 'non-utf8', 'cases': [{'roots': [[r, a, b, m]], 'lossy': True} for r in ('dot', 'abs', 'rel')
+                                                      for (a, b) in windows(3, True) for m in (None, 'bfs', 'dfs')]}
+    # the root "/" explored inside a chroot jail
+    for sh in core.tree_shapes(3 if tier == 'quick' else 4):
+        tree = core.shape_to_tree(sh)
+        depth = tree_depth(tree)
+        cs = [{'roots': [['slash', a, b, m]], 'jail': True}
+              for (a, b) in windows(depth, True) for m in (None, 'dfs')]
+        yield {'tree': tree, 'cases': cs, 'layer': 'jail', 'jail': True}
     for sh in shapes:
         tree = core.shape_to_tree(sh)
         yield {'tree': tree, 'cases': cases_for(tree, tier), 'layer': 'shape-%d' % sum(1 for _ in core.walk_tree(tree))}
@@ -144,13 +159,6 @@ def groups(tier, seed):
         cs = [{'roots': [['dot', a, b, m]], 'rd': k} for k in range(math.factorial(widest)) for m in (None, 'dfs')
               for (a, b) in ((None, None), (2, None), (None, 2))]
         yield {'tree': tree, 'cases': cs, 'layer': 'readdir-perm'}
-    # the root "/" explored inside a chroot jail
-    for sh in core.tree_shapes(3 if tier == 'quick' else 4):
-        tree = core.shape_to_tree(sh)
-        depth = tree_depth(tree)
-        cs = [{'roots': [['slash', a, b, m]], 'jail': True}
-              for (a, b) in windows(depth, True) for m in (None, 'dfs')]
-        yield {'tree': tree, 'cases': cs, 'layer': 'jail', 'jail': True}
 
 
 def single(case):
@@ -285,6 +293,16 @@ def eval_case(env, tree, holder, troot, topdirs, case, layer, jail_tree):
     if o.rc != 0 or o.err:
         return viol('status-or-stderr', dict(o.brief(), argv=argv))
     rows = o.rows()
+    if case.get('lossy'):
+        lossy = lambda t: t.encode('utf-8', 'surrogateescape').decode('utf-8', 'replace')
+        pre = {'dot': './', 'abs': troot + '/', 'rel': 'real/t/'}[case['roots'][0][0]]
+        want = sorted(lossy(pre + p) for p in exp_all)
+        have = sorted(lossy(r_) for r_ in rows)
+        if want != have:
+            return viol('rows-differ-non-utf8-names', {'argv': argv, 'n_got': len(have), 'n_expected': len(want),
+                                                       'missing': [x for x in want if x not in have][:5]})
+        res.update(status='ok', sig=(len(have),))
+        return res
     got = []
     for p in rows:
         if jail_tree is not None:
